@@ -1,8 +1,8 @@
 (* Props/C14.v — C14: queries stream lazily; open-ended queries deliver results on demand.
-   Statements only (Proofs/PullP.v, Proofs/PullRefine.v), about the pull machines of
+   Statements only (Proofs/PullP.v, Proofs/PullRefine.v, Proofs/PullInter.v), about the pull machines of
    Model/Pull.v, which every run of ./check C14 ties to calgebra by corr_pull (items AND
    per-leaf pull counts of the instrumented implementation, exactly). *)
-From CG Require Import Model.Pull Proofs.PullP Proofs.PullRefine.
+From CG Require Import Model.Pull Proofs.PullP Proofs.PullRefine Proofs.PullInter.
 
 (* composing performs no fetch: building the generator chain of e[a:b] / e[a:] is a pure
    function of the expression and the window; nothing is read before the first next() *)
@@ -35,14 +35,43 @@ Theorem C14_prefix_of_truncation : forall fuel env o n m c outs fin m' c' cb,
 Proof. exact prefix_of_truncation. Qed.
 Print Assumptions C14_prefix_of_truncation.
 
-(* refinement to the list model: over finite windows the machine of an expression built from
-   recurring and stored leaves with | ~ flatten filter buffer, run until it stops, yields
-   exactly the list the sweeps of Model/Sweeps.v compute *)
+(* refinement to the list model: over a finite window the machine of any expression built
+   from recurring and stored leaves with | & ~ flatten filter buffer (k-way union and
+   intersection with every mask/emit selection; difference only without subtractors), run
+   until it stops, yields exactly the list the sweeps of Model/Sweeps.v compute ... *)
 Theorem C14_pull_eq_list : forall env o e a b,
-  frag e = true -> pos_periods e = true -> leaves_ok o e a (Some b) ->
+  frag2 e = true -> pos_periods e = true -> leaves_ok o e a (Some b) ->
   runs env o (compile e a (Some b)) (lfetch env e a b).
-Proof. exact pull_eq_list_frag. Qed.
+Proof. exact pull_eq_list. Qed.
 Print Assumptions C14_pull_eq_list.
+
+(* ... including the clip "& solid" of Timeline.__getitem__: tl[a:b] *)
+Theorem C14_pull_eq_list_slice : forall env o e a b,
+  frag2 e = true -> pos_periods e = true -> leaves_ok o e a (Some b) ->
+  runs env o (pslice e a (Some b)) (lslice env e a b).
+Proof. exact pull_eq_list_slice. Qed.
+Print Assumptions C14_pull_eq_list_slice.
+
+(* the Intersection machine alone, over arbitrary operand machines *)
+Theorem C14_intersection_refines : forall env o masks ms Ls,
+  Forall2 (runs env o) ms Ls -> (2 <= length Ls)%nat ->
+  runs env o (MInter masks IInit (map (fun m => (s0, m)) ms)) (inter_sweep Ls (emit_sel masks)).
+Proof. exact runs_inter. Qed.
+Print Assumptions C14_intersection_refines.
+
+(* and [lfetch] is [fetch] of Model/Expr.v on expressions without recurring leaves *)
+Theorem C14_lfetch_is_fetch : forall env e a b, no_per e = true ->
+  lfetch env e a b = fetch env (to_expr e) (Some a) (Some b) false.
+Proof. exact lfetch_fetch. Qed.
+Print Assumptions C14_lfetch_is_fetch.
+
+(* bounded queries terminate: the machine of tl[a:b] stops after finitely many items, each
+   next() returning for every sufficiently large fuel (same operators) *)
+Theorem C14_bounded_terminates : forall env o e a b,
+  frag2 e = true -> pos_periods e = true -> leaves_ok o e a (Some b) ->
+  exists l, runs env o (pslice e a (Some b)) l.
+Proof. exact bounded_terminates. Qed.
+Print Assumptions C14_bounded_terminates.
 
 (* satisfiability / non-vacuity: weekdays-like union of a daily and a weekly pattern, open end *)
 Example C14_nonvacuous :
@@ -52,7 +81,7 @@ Example C14_nonvacuous :
     Some ([mkI (Some 1000000) (Some 1036800) Plain; mkI (Some 1000000) (Some 1011600) Plain;
            mkI (Some 1069200) (Some 1098000) Plain], false, m', [2; 2]%nat)) /\
   leaves_ok (oenv_of e 1000000 (Some 2000000)) e 1000000 (Some 2000000) /\
-  frag e = true /\ pos_periods e = true.
+  frag2 e = true /\ pos_periods e = true.
 Proof.
   cbv zeta. split; [eexists; vm_compute; reflexivity|].
   split; [|split; reflexivity].
